@@ -107,10 +107,97 @@ def _nest_composed(case: Dict[str, Any], res: CaseResult) -> CaseResult:
     return res
 
 
+
+def _shared_inner(case: Dict[str, Any], res: CaseResult) -> CaseResult:
+    """History on ONE inner DAG object: it is set up / called plainly / nested in several outer DAGs, one after the
+    other, with different ways of supplying its defaulted parameters.  Every call - of each outer DAG, right after it
+    was built and again at the end, and of the inner DAG itself - computes what the inlined program computes."""
+    Q = case["inner"]
+    qb = prog.build(Q, mc=case.get("mc", 2))
+    built: List[Any] = []  # (outer program, Built, call argument)
+    pre: Dict[str, Any] = {}
+    res.evals = 0
+
+    def run(tagtxt: str, dag_: Any, P_: Dict[str, Any], args_: List[Any]) -> bool:
+        R = prog.Ref(pre=dict(pre))
+        try:
+            want = prog.ref_run(P_, args_, R)
+        except (prog.RefError, prog.MissingArg, KeyError, IndexError) as e:
+            res.skipped = "reference-raises-" + type(e).__name__
+            return False
+        ex = sched.Exec("free")
+        try:
+            with ex:
+                got = dag_(*args_)
+        except BaseException as e:  # noqa: BLE001
+            if isinstance(e, KeyboardInterrupt):
+                raise
+            res.viol("shared-inner-raised", f"{tagtxt} raised {type(e).__name__}: {str(e)[:300]} [history {case['steps']}]")
+            return False
+        res.evals += 1
+        if prog.foreign_objects(got) or got != want:
+            res.viol("shared-inner-value", f"{tagtxt} returned {got!r}, the inlined program gives {want!r} [history {case['steps']}]")
+            return False
+        for s_ in R.executed:
+            spec = None
+            for _pth, st_, pp in _walk(P_):
+                if st_["site"] == s_:
+                    spec = pp["fns"][st_["fn"]]
+            if spec is not None and spec.get("setup"):
+                pre[s_] = R.values[s_]
+        return True
+
+    for i, step in enumerate(case["steps"]):
+        if step["op"] == "setup":
+            try:
+                qb.dag.setup()
+            except BaseException as e:  # noqa: BLE001
+                if isinstance(e, KeyboardInterrupt):
+                    raise
+                res.viol("shared-inner-raised", f"step {i}: inner.setup() raised {type(e).__name__}: {str(e)[:200]}")
+                return res
+            R0 = prog.Ref(pre=dict(pre))
+            prog.ref_run(Q, [None] * sum(1 for _n, d in Q["params"] if d is None), R0)
+            for s_ in R0.executed:
+                if Q["fns"][[b_ for b_ in Q["body"] if b_["site"] == s_][0]["fn"]].get("setup"):
+                    pre[s_] = R0.values[s_]
+        elif step["op"] == "inner":
+            if not run(f"step {i}: inner{tuple(step['args'])}", qb.dag, Q, [dec(a) for a in step["args"]]):
+                return res
+        else:
+            O = {"name": f"OUT{i}", "params": [["p0", None]], "fns": {"g": {"kind": "term", "res": "thread"}}, "ret": ["x", ["v", "w"]],
+                 "body": [{"k": "call", "fn": "g", "site": f"@o{i}", "mark": True, "args": [["p", "p0"]], "kwargs": {}, "active": None,
+                           "unpack": None, "tags": [], "out": "v0"},
+                          {"k": "sub", "prog": Q, "args": step["args"], "active": None, "out": "w"}]}
+            try:
+                ob = prog.build(O, mc=case.get("mc", 2), shared_subs={Q["name"]: qb})
+            except BaseException as e:  # noqa: BLE001
+                if isinstance(e, KeyboardInterrupt):
+                    raise
+                res.viol("shared-inner-raised", f"step {i}: building an outer DAG that nests inner({step['args']}) raised {type(e).__name__}: {str(e)[:300]} [history {case['steps']}]")
+                return res
+            built.append((O, ob, dec(step["val"]), i))
+            if not run(f"step {i}: outer nesting inner({step['args']})", ob.dag, O, [dec(step["val"])]):
+                return res
+    for O, ob, val, i in built:
+        if not run(f"at the end: the outer DAG of step {i}", ob.dag, O, [val]):
+            return res
+    n_out = len(built)
+    res.nontrivial = n_out >= 2 and any(len(st_["args"]) >= 2 for st_ in case["steps"] if st_["op"] == "outer")
+    res.cls("shared-inner", f"shared-inner-nested-{min(n_out, 3)}x")
+    if any(st_["op"] == "setup" for st_ in case["steps"]):
+        res.cls("shared-inner-set-up-first")
+    if any(f.get("kind") == "nocopy" for f in Q["fns"].values()):
+        res.cls("shared-inner-holds-uncopyable-setup-result")
+    return res
+
+
 def run_case(case: Dict[str, Any]) -> CaseResult:
     res = CaseResult()
     if case.get("family") == "nest-composed":
         return _nest_composed(case, res)
+    if case.get("family") == "shared-inner":
+        return _shared_inner(case, res)
     P, args = case["prog"], case["args"]
     refs = {dbg: pc.reference(P, args, run_debug=dbg) for dbg in (False, True)}
     for dbg in (False, True):
@@ -213,6 +300,30 @@ def cases(draw: Any, tier: str) -> Dict[str, Any]:
             else:
                 vals.append(prog.enc(draw(st.sampled_from([0, 1, "w", None]))))
         return {"family": "nest-composed", "prog": P, "inputs": ins, "outputs": outs, "vals": vals, "mc": draw(st.integers(1, 3))}
+    if draw(st.sampled_from([True] + [False] * 6)):
+        # history on one inner DAG object (see _shared_inner)
+        from .. import gen
+
+        Q = draw(gen.flat_prog(min_sites=2, max_sites=5, max_deps=2, resources=gen.RES, dep_kinds=("pos", "kw"), n_params=3,
+                               n_setup=draw(st.integers(0, 1)), name="INNER", prio_range=(-1, 2)))
+        Q["params"] = [["p0", None], ["p1", {"d": draw(st.sampled_from([10, "d1"]))}], ["p2", {"d": draw(st.sampled_from([100, "d2", None]))}]]
+        plain = [b_ for b_ in Q["body"] if not Q["fns"][b_["fn"]].get("setup")]
+        plain[0]["args"] = plain[0]["args"] + [["p", "p0"], ["p", "p1"]]
+        plain[-1]["kwargs"] = dict(plain[-1]["kwargs"], kz=["p", "p2"])
+        for f in Q["fns"].values():
+            if f.get("setup") and draw(st.booleans()):
+                f["kind"] = "nocopy"  # the setup result can be neither deep-copied nor pickled
+        steps: List[Dict[str, Any]] = []
+        if any(f.get("setup") for f in Q["fns"].values()) and draw(st.booleans()):
+            steps.append({"op": "setup"})
+        for _ in range(draw(st.integers(2, 4))):
+            if draw(st.sampled_from([True, True, True, False])):
+                k = draw(st.integers(1, 3))
+                args_ = [draw(st.sampled_from([["v", "v0"], ["p", "p0"], ["c", 3], ["c", "k"], ["c", None]])) for _ in range(k)]
+                steps.append({"op": "outer", "args": args_, "val": draw(st.sampled_from([0, 1, "a"]))})
+            else:
+                steps.append({"op": "inner", "args": [draw(st.sampled_from([0, 2, "b"])) for _ in range(draw(st.integers(1, 3)))]})
+        return {"family": "shared-inner", "inner": Q, "steps": steps, "mc": draw(st.integers(1, 3))}
     c = draw(richgen.rich_case(depth=3, max_stmts=6, flag_w=6, sub_w=8, seqop_w=1, debug_w=1))
     c["configs"] = draw(pc.configs(2, sites=prog.sites_of(c["prog"])))
     P_ = c["prog"]
